@@ -1140,3 +1140,23 @@ def argument_as_given(ctx, fn, param, legit, clause, rule="ARG-asgiven"):
                f"{' (when ' + ', '.join(k + (' is set' if v else ' is empty / None') for k, v in witness[1].items()) + ')' if witness[1] else ''}: "
                f"a value the caller passed deliberately is treated as `not given`", clause=clause)
     return n
+
+
+def split_pieces_on_empty(ctx, repo, fns, clause, rule="GRD-split"):
+    """GRD-split: np.split(x, bounds) / np.array_split return len(bounds) + 1 pieces -- ONE (empty) piece for an empty x with
+    no bounds.  Where the pieces are the groups of a partition, a zero-row input then has one phantom group; the call must
+    be reached only with a non-empty x (a dominating length test / early return)."""
+    from ..guards import nonempty
+    ctx.rule(rule, "np.split is reached only with a non-empty array where its pieces stand for groups")
+    n = 0
+    for fn in fns:
+        for f in _all_fns([fn]):
+            for _f, c in calls_in(f, False):
+                if norm(c.func) in ("np.split", "numpy.split", "np.array_split", "numpy.array_split") and c.args:
+                    n += 1
+                    ok, why = nonempty(repo, f, c.args[0], c)
+                    ctx.ob(rule, f, norm(c)[:60], c, ok,
+                           f"{norm(c.args[0])} is non-empty here ({why})" if ok else
+                           f"{norm(c)[:50]} returns one piece even when {norm(c.args[0])} is empty ({why}): a zero-row input is partitioned into one "
+                           f"phantom empty group, where the index loop (and the compiled twin) yield no group at all", clause=clause)
+    return n
